@@ -191,6 +191,24 @@ func (o *snapshotter) Update(ctx context.Context, info snapshots.Info, fieldpath
 		return snapshots.Info{}, err
 	}
 
+	// The remote label is managed by this snapshotter. Keep it as it is stored
+	// regardless of the labels passed by the client.
+	_, cur, _, err := storage.GetInfo(ctx, info.Name)
+	if err != nil {
+		t.Rollback()
+		return snapshots.Info{}, err
+	}
+	labels := make(map[string]string, len(info.Labels)+1)
+	for k, v := range info.Labels {
+		labels[k] = v
+	}
+	if v, ok := cur.Labels[remoteLabel]; ok {
+		labels[remoteLabel] = v
+	} else {
+		delete(labels, remoteLabel)
+	}
+	info.Labels = labels
+
 	info, err = storage.UpdateInfo(ctx, info, fieldpaths...)
 	if err != nil {
 		t.Rollback()
